@@ -7,7 +7,12 @@
     identifier, never executed);  Println: 0 = argument;  unary: 0;  binary, &&, ||: 0, 1;
     block: i = i-th statement;  if: 0 = init, 1 = cond, 2 = then block, 3 = else block;
     for: 0 = init, 1 = cond, 2 = post, 3 = body block, 4 = the loop-variable node that ast.go
-    inserts as first child of the body of a 3-clause for (written here as a child of the for node). *)
+    inserts as first child of the body of a 3-clause for (written here as a child of the for node);
+    switch: 0 = init, 1 = tag, 2 = the switch block, whose child i is the i-th case clause;
+    case clause: 0 = the caseBody node (a block; [fallthrough] is its last statement, a node that does
+    nothing), 1 + k = the k-th case expression.
+    [compile] first applies [norm]: cfg.go (pre-order of switchStmt / switchIfStmt) swaps a default
+    clause that is not last with the last clause before anything else looks at the clauses. *)
 From Verif Require Import Core.Syntax.
 
 Definition path := list nat.
@@ -39,7 +44,8 @@ Inductive action :=
 | XOpAssign (op : aop) (src : operand) (dst : nat)
 | XIncDec (inc : bool) (dst : nat)
 | XLoopVar (src dst : nat)                            (* run.go loopVarFor *)
-| XPrint (a : operand).
+| XPrint (a : operand)
+| XCase (tag : operand) (vals : list operand).        (* run.go _case: tnext when the tag equals one of the values *)
 
 Record cnode := mknode { act : action; tnext : option path; fnext : option path }.
 
@@ -87,6 +93,26 @@ Fixpoint balloc (e : bexp) (sc : scope) (nx : nat) : boperand * nat :=
       let '(_, n2) := balloc b sc n1 in (BSlot n2, S n2)
   end.
 
+(** The expressions of a case clause, in order. *)
+Fixpoint aalloc_list (l : list aexp) (sc : scope) (nx : nat) : list operand * nat :=
+  match l with
+  | [] => ([], nx)
+  | e :: l' => let '(o, n1) := aalloc e sc nx None in let '(os, n2) := aalloc_list l' sc n1 in (o :: os, n2)
+  end.
+
+Fixpoint balloc_list (l : list bexp) (sc : scope) (nx : nat) : nat :=
+  match l with
+  | [] => nx
+  | e :: l' => balloc_list l' sc (snd (balloc e sc nx))
+  end.
+
+Definition calloc (ce : cexprs) (sc : scope) (nx : nat) : nat :=
+  match ce with
+  | CDefault => nx
+  | CInts l => snd (aalloc_list l sc nx)
+  | CBools l => balloc_list l sc nx
+  end.
+
 (** Destination forced onto the source of [x = e]. *)
 Definition assign_dst (x : ident) (sc : scope) : option nat := slot_of x sc.
 
@@ -125,6 +151,11 @@ Fixpoint salloc (s : stmt) (sc : scope) (nx : nat) {struct s} : scope * nat :=
       | Some x => (sc, snd (salloc_list body ((x, n3) :: tl sc1) (S n3)))
       | None => (sc, snd (salloc_list body sc1 n3))
       end
+  | SSwitch init tag cls =>
+      let '(sc1, n1) := salloc_opt init sc nx in
+      let n2 := match tag with None => n1 | Some t => snd (aalloc t sc1 n1 None) end in
+      (sc, snd (salloc_list cls sc1 n2))
+  | SCase ce body _ => (sc, snd (salloc_list body sc (calloc ce sc nx)))
   end.
 
 Definition salloc_opt (o : option stmt) (sc : scope) (nx : nat) : scope * nat :=
@@ -272,6 +303,31 @@ Fixpoint sstart (s : stmt) (p : path) {struct s} : path :=
       | RStart 2 => match post with Some s => sstart s (p ++ [2%nat]) | None => p end
       | RStart _ => if has_lv init c post then p ++ [4%nat] else block_start body (p ++ [3%nat])
       end
+  | SSwitch init tag cls =>
+      (* n.start = n.child[0].start, child[0] = init, tag or the switch block (sbn.start = clauses[0].start);
+         an empty switch is not wired at all *)
+      match cls with
+      | [] => p
+      | c0 :: _ =>
+          match init, tag with
+          | Some i, _ => sstart i (p ++ [0%nat])
+          | None, Some t => astart t (p ++ [1%nat])
+          | None, None => sstart c0 ((p ++ [2%nat]) ++ [0%nat])
+          end
+      end
+  | SCase ce body ft =>
+      (* c.start: the start of the first case expression (a literal or identifier starts at itself);
+         a default clause starts at its body; an empty default clause at itself.
+         caseBody: n.start = n.child[0].start, or the switch node when the body is empty *)
+      let bs := match body with
+                | s0 :: _ => sstart s0 ((p ++ [0%nat]) ++ [0%nat])
+                | [] => if ft then (p ++ [0%nat]) ++ [0%nat] else removelast (removelast p)
+                end in
+      match ce with
+      | CInts (e0 :: _) => astart e0 (p ++ [1%nat])
+      | CBools (c0 :: _) => bstart c0 (p ++ [1%nat])
+      | _ => match body, ft with [], false => p | _, _ => bs end
+      end
   end.
 
 Definition block_start (b : list stmt) (p : path) : path :=
@@ -299,6 +355,111 @@ Definition for_ref (init : option stmt) (c : option bexp) (post : option stmt) (
   | RStart 1 => match c with Some c => Some (bstart c (p ++ [1%nat])) | None => None end
   | RStart 2 => match post with Some s => Some (sstart s (p ++ [2%nat])) | None => None end
   | RStart _ => Some (body_start init c post body p)
+  end.
+
+(* ------------------------------------------------------------------ switch *)
+
+(** The body of a clause as a block: [fallthrough] is a last statement that does nothing. *)
+Definition case_body (body : list stmt) (ft : bool) : list stmt := if ft then body ++ [SBlock []] else body.
+
+(** body.start of a clause at path [pc] of the switch at [sw] (clauses[i].lastChild().start). *)
+Definition clause_body_start (c : stmt) (sw pc : path) : path :=
+  match c with
+  | SCase _ body ft =>
+      match case_body body ft with [] => sw | s0 :: _ => sstart s0 ((pc ++ [0%nat]) ++ [0%nat]) end
+  | _ => pc
+  end.
+
+Definition clause_exprs (c : stmt) : nat :=
+  match c with SCase (CInts l) _ _ => length l | SCase (CBools l) _ _ => length l | _ => 0%nat end.
+
+(** len(c.child) == 0: [default:] with nothing after it. *)
+Definition clause_empty (c : stmt) : bool :=
+  match c with SCase ce body ft => Nat.eqb (clause_exprs c) 0 && match case_body body ft with [] => true | _ => false end | _ => false end.
+
+Definition clause_ft (c : stmt) : bool := match c with SCase _ _ ft => ft | _ => false end.
+
+(** Edge targets of the clause loop of switchStmt / switchIfStmt. *)
+Inductive cref :=
+| CNil | CSwitch (* n *) | CClause (* c *) | CBodyStart | CChild0Start (* c.child[0].start, cond.start *)
+| CNextBodyStart (* clauses[i+1].lastChild().start *) | CNextStart (* clauses[i+1].start *) | CNext (* clauses[i+1] *).
+
+(** switchStmt, "Chain case clauses", one iteration; the guards are
+    [empty]: len(c.child) == 0, [last]: i == l-1, [ft]: i < l-1 && the body ends with fallthrough,
+    [nempty]: len(clauses[i+1].child) == 0, [nmulti]: len(clauses[i+1].child) > 1. *)
+Record casewire := { cw_tnext : cref; cw_child0_t : cref; cw_start : cref; cw_body_t : cref; cw_fnext : cref }.
+
+Definition wire_case (empty last ft nempty nmulti : bool) : casewire :=
+  {| cw_tnext := if empty then CSwitch else CBodyStart;
+     cw_child0_t := if empty then CNil else CClause;
+     cw_start := if empty then CNil else CChild0Start;
+     cw_body_t := if empty then CNil else if ft then (if nempty then CSwitch else CNextBodyStart) else CSwitch;
+     cw_fnext := if last then CSwitch else if nmulti then CNextStart else CNext |}.
+
+(** switchIfStmt, one iteration; [hascond]: len(c.child) > 1. *)
+Record caseifwire := { ci_tnext : cref; ci_fnext : cref; ci_cond_t : cref; ci_cond_f : cref; ci_start : cref; ci_body_t : cref }.
+
+Definition wire_caseif (empty hascond last ft : bool) : caseifwire :=
+  if empty then {| ci_tnext := CSwitch; ci_fnext := CSwitch; ci_cond_t := CNil; ci_cond_f := CNil; ci_start := CNil; ci_body_t := CNil |}
+  else {| ci_tnext := CNil; ci_fnext := CNil;
+          ci_cond_t := if hascond then CBodyStart else CNil;
+          ci_cond_f := if hascond then (if last then CSwitch else CNextStart) else CNil;
+          ci_start := if hascond then CChild0Start else CBodyStart;
+          ci_body_t := if ft then CNextBodyStart else CSwitch |}.
+
+(** The switch node itself: sbn.start = clauses[0].start; n.start = n.child[0].start;
+    n.child[0].tnext = sbn.start (with an init statement the tag is never entered). *)
+
+Definition clause_ref (c : stmt) (next : option stmt) (sw pc pn : path) (r : cref) : option path :=
+  match r with
+  | CNil => None
+  | CSwitch => Some sw
+  | CClause => Some pc
+  | CBodyStart => Some (clause_body_start c sw pc)
+  | CChild0Start => Some (sstart c pc)
+  | CNextBodyStart => match next with Some c' => Some (clause_body_start c' sw pn) | None => None end
+  | CNextStart => match next with Some c' => Some (sstart c' pn) | None => None end
+  | CNext => match next with Some _ => Some pn | None => None end
+  end.
+
+(** The default swap of cfg.go: c[i], c[l] = c[l], c[i] for the first default clause i, l the last index. *)
+Definition is_default_clause (c : stmt) : bool :=
+  match c with SCase ce body ft => Nat.eqb (clause_exprs c) 0 | _ => false end.
+
+Fixpoint first_default (cls : list stmt) (i : nat) : option nat :=
+  match cls with
+  | [] => None
+  | c :: cls' => if is_default_clause c then Some i else first_default cls' (S i)
+  end.
+
+Fixpoint set_nth (l : list stmt) (i : nat) (x : stmt) : list stmt :=
+  match l, i with
+  | [], _ => []
+  | _ :: l', O => x :: l'
+  | y :: l', S i' => y :: set_nth l' i' x
+  end.
+
+Definition swap_default (cls : list stmt) : list stmt :=
+  match first_default cls 0%nat with
+  | None => cls
+  | Some i =>
+      let l := Nat.pred (length cls) in
+      if Nat.eqb i l then cls
+      else match nth_error cls i, nth_error cls l with
+           | Some ci, Some cl => set_nth (set_nth cls i cl) l ci
+           | _, _ => cls
+           end
+  end.
+
+Fixpoint norm (s : stmt) {struct s} : stmt :=
+  let norm_opt (o : option stmt) := match o with Some s => Some (norm s) | None => None end in
+  match s with
+  | SBlock b => SBlock (map norm b)
+  | SIf init c t e => SIf (norm_opt init) c (map norm t) (match e with Some l => Some (map norm l) | None => None end)
+  | SFor init c post body => SFor (norm_opt init) c (norm_opt post) (map norm body)
+  | SSwitch init tag cls => SSwitch (norm_opt init) tag (swap_default (map norm cls))
+  | SCase ce body ft => SCase ce (map norm body) ft
+  | _ => s
   end.
 
 (* ------------------------------------------------------------------ the nodes *)
@@ -410,7 +571,8 @@ Fixpoint snode_at (q : path) (s : stmt) (sc : scope) (nx : nat) (K : sctx) (self
           | Some d => Some (mknode (XIncDec inc d) (k_next K) None)
           end
       | SPrint e => Some (mknode (XPrint (operand_of e sc nx None)) (k_next K) None)
-      | SBlock _ | SIf _ _ _ _ | SFor _ _ _ _ => Some (mknode XNop (k_next K) None)
+      | SBlock _ | SIf _ _ _ _ | SFor _ _ _ _ | SSwitch _ _ _ => Some (mknode XNop (k_next K) None)
+      | SCase _ _ _ => None         (* clause nodes are made by the switch *)
       | SBreak => Some (mknode XNop (k_brk K) None)
       | SContinue => Some (mknode XNop (k_cont K) None)
       end
@@ -490,6 +652,75 @@ Fixpoint snode_at (q : path) (s : stmt) (sc : scope) (nx : nat) (K : sctx) (self
               else None
           | _ => let _ := inner in None
           end
+      | SSwitch init tag cls =>
+          let '(sc1, n1) := salloc_opt init sc nx in
+          let otag := match tag with Some t => fst (aalloc t sc1 n1 None) | None => OConst 0 end in
+          let n2 := match tag with None => n1 | Some t => snd (aalloc t sc1 n1 None) end in
+          let sbn := self ++ [2%nat] in
+          let sbn_start := match cls with c0 :: _ => Some (sstart c0 (sbn ++ [0%nat])) | [] => None end in
+          match i with
+          | 0%nat => match init with
+                     | Some s0 => snode_at q' s0 sc nx (mkctx sbn_start (k_brk K) (k_cont K)) (self ++ [0%nat])
+                     | None => None
+                     end
+          | 1%nat => match tag with
+                     | Some t => anode_at q' t sc1 n1 None (self ++ [1%nat]) (if is_some init then None else sbn_start)
+                     | None => None
+                     end
+          | 2%nat =>
+              match q' with
+              | [] => Some (mknode XNop sbn_start None)
+              | j :: q'' =>
+                  match nth_error cls j with
+                  | Some (SCase ce body ft as c) =>
+                      let nj := snd (salloc_list (firstn j cls) sc1 n2) in
+                      let next := nth_error cls (S j) in
+                      let pc := sbn ++ [j] in
+                      let r := clause_ref c next self pc (sbn ++ [S j]) in
+                      let empty := clause_empty c in
+                      let last := negb (is_some next) in
+                      let ftx := is_some next && ft in
+                      let w := wire_case empty last ftx
+                                 (match next with Some c' => clause_empty c' | None => false end)
+                                 (match next with Some c' => Nat.ltb 0 (clause_exprs c') | None => false end) in
+                      let wi := wire_caseif empty (Nat.ltb 0 (clause_exprs c)) last ftx in
+                      let tagged := is_some tag in
+                      match q'' with
+                      | [] =>
+                          if tagged then
+                            match ce with
+                            | CInts ((_ :: _) as l) => Some (mknode (XCase otag (fst (aalloc_list l sc1 nj))) (r (cw_tnext w)) (r (cw_fnext w)))
+                            | _ => Some (mknode XNop (r (cw_tnext w)) (r (cw_fnext w)))
+                            end
+                          else Some (mknode XNop (r (ci_tnext wi)) (r (ci_fnext wi)))
+                      | 0%nat :: q3 =>
+                          snode_at q3 (SBlock (case_body body ft)) sc1 (calloc ce sc1 nj)
+                            (mkctx (r (if tagged then cw_body_t w else ci_body_t wi)) (Some self) (k_cont K)) (pc ++ [0%nat])
+                      | S k :: q3 =>
+                          match ce with
+                          | CInts l =>
+                              match nth_error l k with
+                              | Some e => anode_at q3 e sc1 (snd (aalloc_list (firstn k l) sc1 nj)) None (pc ++ [S k])
+                                            (match k with 0%nat => r (cw_child0_t w) | _ => None end)
+                              | None => None
+                              end
+                          | CBools l =>
+                              match nth_error l k with
+                              | Some e =>
+                                  match k with
+                                  | 0%nat => bnode_at q3 e sc1 nj (pc ++ [1%nat]) (r (ci_cond_t wi)) (r (ci_cond_f wi))
+                                  | _ => bnode_at q3 e sc1 (balloc_list (firstn k l) sc1 nj) (pc ++ [S k]) None None
+                                  end
+                              | None => None
+                              end
+                          | CDefault => None
+                          end
+                      end
+                  | _ => None
+                  end
+              end
+          | _ => None
+          end
       | _ => None
       end
   end
@@ -497,9 +728,10 @@ Fixpoint snode_at (q : path) (s : stmt) (sc : scope) (nx : nat) (K : sctx) (self
 
 (** The compiled program: the body of main is the block at the root; after it the function ends. *)
 Definition compile (p : program) : cfg :=
-  fun q => snode_at q (SBlock p) [] 0%nat (mkctx None None None) [].
+  let p' := map norm p in
+  fun q => snode_at q (SBlock p') [] 0%nat (mkctx None None None) [].
 
-Definition entry (p : program) : path := block_start p [].
+Definition entry (p : program) : path := block_start (map norm p) [].
 
 (* ------------------------------------------------------------------ the machine (runCfg) *)
 
@@ -537,6 +769,7 @@ Definition exec_node (nd : cnode) (fr : frame) (out : list Z) : mres :=
   | XIncDec inc d => MRun (tnext nd) (set fr d (VI (wrap (geti fr d + (if inc then 1 else -1))))) out
   | XLoopVar src d => MRun (tnext nd) (set fr d (fr src)) out
   | XPrint a => MRun (tnext nd) fr (out ++ [oval fr a])
+  | XCase t vals => MRun (branch_to nd (existsb (fun o => Z.eqb (oval fr t) (oval fr o)) vals)) fr out
   end.
 
 (** One iteration of "for exec := n.exec; exec != nil; exec = exec(f)". A missing node ends the run. *)
